@@ -534,8 +534,31 @@ def async_signature_obligation(ctx, R, prover, n, bs):
         conj.append(z3.And(a["index"].t == r["index"].t, a["weak_hash"].t == r["weak_hash"].t,
                            deltamodels.hash_eq_term(ex, a["strong_hash"], r["strong_hash"])))
     tag = "C01/async-signature[n=%d,bs=%d]" % (n, bs)
+
+    def witness(name, model, neg):
+        # the engine only accepts power-of-two block sizes >= 512: replay the model's delivery pattern scaled to 512
+        reads = sorted(((d.name(), model[d].as_long()) for d in model.decls() if d.name().startswith("short_read")),
+                       key=lambda kv: int(kv[0].split("!")[-1]) if "!" in kv[0] else 0)
+        scale = 512.0 / max(bs, 1)
+        fam = [[max(1, int(round(r * scale))) for _, r in reads if r > 0] or [1]]
+        fam += [[1], [511], [513], [700, 100000], [256]]
+        x = 12345
+        data = []
+        for _ in range(max(1, int(n * scale)) + 700):
+            x = (x * 6364136223846793005 + 1442695040888963407) % (1 << 64)
+            data.append((x >> 33) & 255)
+        for chunks in fam:
+            case = {"fn": "async_signature_chunked", "data": data, "bs": 512, "chunks": chunks}
+            res = native.run_both(case)
+            bad = {p: r for p, r in res.items() if "panic" in r or "crash" in r or r.get("equal") is False}
+            if bad:
+                case["observed"] = res
+                return {"confirmed": True, "replay_path": R.save_replay(tag, case), "key": "C01/async-signature/short-reads",
+                        "detail": "AsyncCopiaSync::signature over a reader delivering %s-byte pieces differs from Signature::generate: %s" % (chunks, json.dumps(bad)[:300])}
+        return {"confirmed": False, "detail": "native async signature agrees with Signature::generate for the delivery patterns tried"}
+
     prover.prove(ex, {"equals-Signature::generate": z3.And(*conj)}, tag,
                  "input of %d symbolic bytes, block size %d, delivered by the reader in arbitrary pieces (every read may be short); "
                  "loops unrolled %d times with unwinding assertion" % (n, bs, ex.K),
-                 ["AsyncCopiaSync::signature (coroutine)", "Signature::generate", "BlockSignature::compute"], None,
+                 ["AsyncCopiaSync::signature (coroutine)", "Signature::generate", "BlockSignature::compute"], witness,
                  covers={"completes": z3.And(poll.discr == 0, ares.discr == 0)})
